@@ -107,6 +107,12 @@ def check_C01(tier, seed):
     exe = C.build_dyn()
     policies = S.EAGER_POLICIES
     universes = UNIVERSES_QUICK if tier == "quick" else UNIVERSES_THOROUGH
+    # mechanism layer => declarative layer: the table construction and the call-time walk reach Outcome()
+    for mcfg in ["CompilerTables_N4A1D3.cfg", "CompilerTables_N3A2D3.cfg"] + \
+            (["CompilerTables_N4A2D2.cfg", "CompilerTables_N3A3D2.cfg", "CompilerTables_D2.cfg", "CompilerTables_N4A2D3.cfg"] if tier == "thorough" else []):
+        F.model_check(out, "CompilerTables.tla", mcfg)
+    if tier == "thorough":
+        F.model_check(out, "CompilerTables.tla", "CompilerTables_D2inc.cfg", expect_violation=True)
     for cfg, n, ar in universes:
         regs = F.gen_registries(cfg, out)
         scs = scripts_from_universe(regs, n, ar, rng, policies, cfg.replace(".cfg", ""), ("T", "CT"))
@@ -268,6 +274,11 @@ def check_C06(tier, seed):
     if tier == "thorough":
         universes = [("GenReg_N4A1D3.cfg", 4, 1, 12), ("GenReg_N4A2D3.cfg", 4, 2, 8), ("GenReg_N3A3D3.cfg", 3, 3, 8),
                      ("GenReg_N5A2D2.cfg", 5, 2, 4), ("GenReg_N5A1D3.cfg", 5, 1, 4)]
+    # mechanism layer, every catalog order of the definitions: the walk reaches the order-free Outcome()
+    F.model_check(out, "CompilerTables.tla", "CompilerTables_N3A2D3.cfg")
+    F.model_check(out, "CompilerTables.tla", "CompilerTables_D2inc.cfg", expect_violation=True)
+    if tier == "thorough":
+        F.model_check(out, "CompilerTables.tla", "CompilerTables_D2.cfg")
     for cfg, n, ar, k in universes:
         regs = F.gen_registries(cfg, out)
         scs = scripts_from_universe(regs, n, ar, rng, policies, cfg.replace(".cfg", ""), ("T", "X"), orders=all_orders(k))
@@ -347,4 +358,185 @@ def check_C17(tier, seed):
                     assumptions=ASSUME_DYN, extra_cov={"policies": policies})
 
 
-CHECKS = {"C01": check_C01, "C02": check_C02, "C03": check_C03, "C06": check_C06, "C17": check_C17}
+# ---------------------------------------------------------------------------
+def lat_script(reg, n, sid, policies, rng, probes, split, multi, observe, order=None):
+    """Script from a GenLat registry: classes presented as TLC chose (optionally split over several
+    records / duplicated / reordered), one-parameter probe methods with one definition each, and
+    optionally a multi-method with random definitions."""
+    classes = list(range(1, n + 1))
+    edges = edges_of(reg)
+    anc = S.anc_closure(edges, classes)
+    listed = {c: list(reg["listed"][c - 1]) for c in classes}
+    s = S.Script(sid, [[p] for p in policies])
+    recs = []
+    for c in classes:
+        lst = list(listed[c])
+        if split:
+            if lst and rng.random() < 0.3:
+                lst = lst + [rng.choice(lst)]          # duplicated entry
+            rng.shuffle(lst)
+            if len(lst) >= 2 and rng.random() < 0.5:
+                k = rng.randrange(1, len(lst))
+                recs.append((c, lst[:k]))
+                recs.append((c, lst[k:]))               # several registration records per class
+            else:
+                recs.append((c, lst))
+            if rng.random() < 0.2:
+                recs.append((c, []))
+        else:
+            recs.append((c, lst))
+    if split:
+        rng.shuffle(recs)
+    methods, defs = [], []
+    pc = sorted(reg["mset"]) if probes == "mset" else classes
+    for c in pc:
+        methods.append((c, "V", [c]))
+        defs.append((c, 0, [c]))
+    if multi and rng.random() < 0.7:
+        ar = rng.choice([2, 2, 3])
+        shape = {2: rng.choice(["VV", "VNV", "PP"]), 3: rng.choice(["VVV", "VNVNV"])}[ar]
+        vp = [rng.choice(classes) for _ in range(ar)]
+        m = n + 1
+        methods.append((m, shape, vp))
+        cov = {v: [x for x in classes if v in anc[x]] for v in classes}
+        for d in range(rng.randrange(0, 4)):
+            defs.append((m, d, [rng.choice(cov[v]) for v in vp]))
+    if order is not None:
+        orng = random.Random(order)
+        orng.shuffle(recs)
+        orng.shuffle(methods)
+        orng.shuffle(defs)
+    for cc, bases in recs:
+        s.cls(cc, bases)
+    for m, shape, vp in methods:
+        s.method(m, shape, vp)
+    for m, d, vp in defs:
+        s.defn(m, d, vp)
+    s.update()
+    if "L" in observe:
+        s.layout()
+    for m, shape, vp in methods:
+        for ob in observe:
+            if ob == "RT":
+                s.reads(m)
+            elif ob == "T":
+                s.table(m)
+            elif ob == "X":
+                s.nexts(m)
+            elif ob == "CT":
+                s.ctable(m)
+    return s
+
+
+def break_layout(ev):
+    # make two classes share their v-table pointer: some cell becomes shared or out of place
+    if len(ev["vptr"]) >= 2:
+        ev["vptr"][1][1] = ev["vptr"][0][1]
+        return True
+    return False
+
+
+def break_read(ev):
+    for row in ev["rows"]:
+        if row[1]:
+            row[1][0][1] += 1
+            return True
+    return False
+
+
+def check_C04(tier, seed):
+    TCFG = "TraceYomm2_dispatch.cfg"
+    t0 = time.time()
+    out = F.Outcome("C04")
+    rng = random.Random(seed)
+    policies = ["vec", "fast", "map", "ind"]
+    exe = C.build_dyn()
+    universes = [("GenLat_N4direct.cfg", 4), ("GenLat_N4complete.cfg", 4), ("GenLat_N5direct.cfg", 5)]
+    # mechanism layer: slot allocation as transcribed from compiler.hpp keeps cells disjoint (closed base lists);
+    # the as-registered variant (before the repair of D4) must exhibit the collision
+    F.model_check(out, "CompilerSlots.tla", "CompilerSlots_N4.cfg")
+    F.model_check(out, "CompilerSlots.tla", "CompilerSlots_N4asListed.cfg", expect_violation=True)
+    if tier == "thorough":
+        F.model_check(out, "CompilerSlots.tla", "CompilerSlots_N5.cfg")
+        universes += [("GenLat_N5complete.cfg", 5), ("GenLat_N6direct.cfg", 6), ("GenLat_N6complete.cfg", 6)]
+    allscs = []
+    for cfg, n in universes:
+        regs = F.gen_registries(cfg, out, module="GenLat.tla")
+        if cfg.startswith("GenLat_N6") and len(regs) > 120000:
+            regs = rng.sample(regs, 120000)
+            out.notes.append("%s: 120000 registries sampled from the emitted universe" % cfg)
+        scs = [lat_script(r, n, "%s-%d" % (cfg.replace(".cfg", ""), i), policies, rng, "mset", False, True, ("L", "RT", "T"),
+                          order=(rng.randrange(1 << 30) if rng.random() < 0.5 else None))
+               for i, r in enumerate(regs)]
+        F.execute_and_validate("C04", exe, scs, out, "c04-" + cfg, TCFG)
+        allscs = allscs or scs
+    # random larger lattices, every registration style
+    scs = random_scripts(rng, 300 if tier == "quick" else 5000, policies, ("L", "RT", "T"), max_n=14,
+                         style=lambda r: r.choice(["complete", "direct", "random", "complete+self"]))
+    F.execute_and_validate("C04", exe, scs, out, "c04-rnd", TCFG)
+    if tier == "thorough":
+        # the same traces under AddressSanitizer: an out-of-bounds read of the dispatch data kills the child
+        asan = C.build_dyn(san="address")
+        F.execute_and_validate("C04", asan, scs[:1500], out, "c04-asan", TCFG)
+        out.notes.append("1500 random scripts re-executed under AddressSanitizer")
+    F.selftest_corruption(exe, scs[0], out, mutate_first("layout", break_layout), "two classes given the same v-table pointer in a recorded layout", TCFG)
+    F.selftest_corruption(exe, scs[0], out, mutate_first("reads", break_read), "one recorded read address shifted by one word", TCFG)
+    return F.report("C04", tier, seed, out, t0, LEVEL,
+                    rule="a case = one lattice x placement of methods x registration style under one policy: the layout installed by update "
+                         "(dispatch data size, v-table pointer per class, slots/strides per method, table extents) must give every acceptable "
+                         "(class, method, parameter) its own in-bounds cell (LayoutOK), and every address read by resolve() (hook H2) must be the cell "
+                         "owned by the argument's class for that parameter or lie in the method's own table; distinct_nontrivial = distinct scripts",
+                    assumptions=ASSUME_DYN + ["read addresses come from hook H2 call sites in core.hpp (resolve_uni / resolve_multi_*)"],
+                    extra_cov={"policies": policies})
+
+
+def check_C08(tier, seed):
+    TCFG = "TraceYomm2_dispatch.cfg"
+    t0 = time.time()
+    out = F.Outcome("C08")
+    rng = random.Random(seed)
+    policies = ["vec", "fast", "map", "prj", "stdr"]
+    exe = C.build_dyn()
+    universes = [("GenLat_P3any.cfg", 3, 3), ("GenLat_P4any.cfg", 4, 3)]
+    F.model_check(out, "CompilerSlots.tla", "CompilerSlots_N4.cfg")
+    F.model_check(out, "CompilerSlots.tla", "CompilerSlots_N4asListed.cfg", expect_violation=True)
+    if tier == "thorough":
+        universes += [("GenLat_P5any.cfg", 5, 2)]
+        rt = C.tlc_model("GenLat.tla", "GenLat_P5anyNoEmit.cfg")
+        out.model_states += rt.generated
+        out.model_distinct += rt.distinct
+        out.model_runs.append({"module": "GenLat.tla", "cfg": "GenLat_P5anyNoEmit.cfg", "generated": rt.generated, "distinct": rt.distinct, "ok": rt.ok})
+        if not rt.ok:
+            raise F.ModelViolation("GenLat.tla", "GenLat_P5anyNoEmit.cfg", rt.out)
+    for cfg, n, reps in universes:
+        regs = F.gen_registries(cfg, out, module="GenLat.tla")
+        scs = []
+        for i, r in enumerate(regs):
+            scs.append(lat_script(r, n, "%s-%d" % (cfg.replace(".cfg", ""), i), policies, rng, "all", False, True, ("T", "X", "L")))
+            for k in range(reps - 1):   # the same presentation split over several records, duplicated, reordered
+                scs.append(lat_script(r, n, "%s-%d.s%d" % (cfg.replace(".cfg", ""), i, k), policies, rng, "all", True, True, ("T", "X", "L"),
+                                      order=rng.randrange(1 << 30)))
+        F.execute_and_validate("C08", exe, scs, out, "c08-" + cfg, TCFG)
+    scs = random_scripts(rng, 200 if tier == "quick" else 4000, policies, ("T", "X", "L"), max_n=12,
+                         style=lambda r: r.choice(["direct", "random", "random", "complete+self"]), orders=2)
+    F.execute_and_validate("C08", exe, scs, out, "c08-rnd", TCFG)
+
+    def drop_base(ev):
+        if ev["bases"]:
+            ev["bases"] = ev["bases"][1:]
+            return True
+        return False
+    for s in scs[:40]:
+        if F.selftest_corruption(exe, s, out, mutate_first("class", drop_base), "one listed base removed from a recorded registration", TCFG, must=False):
+            break
+    else:
+        raise C.ToolFailure("self-test: no corrupted registration was rejected")
+    return F.report("C08", tier, seed, out, t0, LEVEL,
+                    rule="a case = one presentation of one inheritance graph (listed bases per class between direct and all bases, optional self, "
+                         "duplicates, several records, any order) under one policy, with a probe method on every class: outcome tables over the tuples "
+                         "acceptable per the closure of the listed relation, next targets and the layout must equal what the complete registration gives "
+                         "(the oracle only sees the closure); distinct_nontrivial = distinct scripts",
+                    assumptions=ASSUME_DYN, extra_cov={"policies": policies})
+
+
+CHECKS = {"C04": check_C04, "C08": check_C08, "C01": check_C01, "C02": check_C02, "C03": check_C03, "C06": check_C06, "C17": check_C17}
